@@ -42,6 +42,7 @@ func main() {
 		{"KmpDedupGen.v", genKmpDedup},
 		{"CleanupRingGen.v", genCleanupRing},
 		{"SplitTailGen.v", genSplitTail},
+		{"SplitWalkGen.v", genSplitWalk},
 		{"TmsData.v", genTmsData},
 		{"CliGen.v", genCli},
 	}
